@@ -39,18 +39,19 @@ def gen_history(ctx, rng):
     mode = rng.choice(["n", "thr", "default"])
     ctor_ns = rng.randint(0, nf) if mode == "n" else None
     ctor_thr = rng.choice([0, 0.05, 0.5, 1000.0]) if mode == "thr" else None
-    ops = [("fit", rng.random() < 0.6)]
+    tri = lambda p: (None if rng.random() < 0.35 else rng.random() < p)     # None: keyword not passed (default refit=True)
+    ops = [("fit", tri(0.6))]
     for _ in range(rng.randint(0, ctx.scale(7, 19))):
         r = rng.random()
         if r < 0.3:
-            ops.append(("fit", rng.random() < 0.5))
+            ops.append(("fit", tri(0.5)))
         elif r < 0.6:
             ops.append(("upd", rng.randint(0, nf), None, True, "max"))
         elif r < 0.85:
             ops.append(("upd", None, rng.choice([0, 0.01, 0.1, 1.0, 1000.0]), True, "max"))
         else:
             k = rng.randint(2, nm if nm else min(X.shape))
-            ops.append(("updm", k, rng.random() < 0.5))
+            ops.append(("updm", k, tri(0.5)))
     return S.SHistory(basis, nm, ctor_ns, ctor_thr, X, y, ops)
 
 
@@ -74,7 +75,7 @@ def check_history(ctx, h, idx):
             if p.shape != (len(X),) or not set(p.tolist()) <= labels:
                 problems.append((i, "zero-sensors-invalid-labels", f"with zero sensors predict returned {p.tolist()[:8]}… (shape {p.shape})"))
             return
-        had_xy = (op[0] == "fit" and op[1]) or (op[0] == "upd" and op[3]) or (op[0] == "updm" and op[2])
+        had_xy = (op[0] == "fit" and op[1] is not False) or (op[0] == "upd" and op[3]) or (op[0] == "updm" and op[2] is not False)
         if had_xy:
             # sensor-column predictions vs a fresh clone trained only on those columns
             try:
@@ -121,8 +122,20 @@ def run(ctx: C.Ctx):
             rq = S.to_request(h, out)
             if rq:
                 todo.append((f, h, out, rq))
-    for idx in range(ctx.scale(90, 1500)):
+    n_random = ctx.scale(90, 1500)
+    n_default_kw = ctx.scale(30, 300)
+    for idx in range(n_random + n_default_kw):
         h = gen_history(ctx, rng)
+        if idx >= n_random:
+            # short histories around the DEFAULT of the `refit` keyword: a model fitted with refit=False (or never fitted), then
+            # calls that do not mention the keyword at all – they must refit on the selected sensors (documented default)
+            nm_hi = h.n_modes if h.n_modes else min(h.X.shape)
+            k = rng.randint(2, max(2, nm_hi))
+            pat = rng.choice([[("fit", False), ("updm", k, None)], [("updm", k, None)], [("fit", False), ("fit", None)],
+                              [("fit", False), ("upd", rng.randint(1, h.X.shape[1]), None, True, "max"), ("updm", k, None)],
+                              [("fit", None), ("updm", k, False), ("updm", k, None)]])
+            h = S.SHistory(h.basis, h.n_modes, h.ctor_ns, h.ctor_thr, h.X, h.y, list(pat))
+            ctx.count("default_refit_keyword_history")
         ctx.evaluations += 1
         ctx.count(f"{h.basis}/{'multi' if len(set(h.y.tolist())) > 2 else 'binary'}")
         out = check_history(ctx, h, idx)
